@@ -192,7 +192,7 @@ func faultList(seed []byte, roles []ref.Role, emit func(b []byte, fault string))
 }
 
 func runC03(c *ctx) {
-	c.Rule = "strict reference decoder oracle on: valid encodings; the same with non-minimal length bytes (each item singly, and all at once); every single-point fault of each seed encoding <= 160 bytes (each truncation point raw/patched, 1-3 appended bytes raw/patched, every header/format/length byte set to each of the other 255 values, every payload byte set to {00,01,7F,80,FF} and each bit flipped); sampled double faults; targeted faults (NaN/Inf payloads, control messages with text, width remainders); unstructured bytes. non-trivial = the byte string differs from a valid canonical encoding or uses non-minimal lengths; distinct by hash of the bytes Also (rounds 6-8): well-formed nests with siblings at every depth to 70/140 (minimal and 3-byte list headers) and the same nest with one item left over; every snapshot overwrites the bytes it got and encodes again."
+	c.Rule = "strict reference decoder oracle on: valid encodings; the same with non-minimal length bytes (each item singly, and all at once); every single-point fault of each seed encoding <= 160 bytes (each truncation point raw/patched, 1-3 appended bytes raw/patched, every header/format/length byte set to each of the other 255 values, every payload byte set to {00,01,7F,80,FF} and each bit flipped); sampled double faults; targeted faults (NaN/Inf payloads, control messages with text, width remainders); unstructured bytes. non-trivial = the byte string differs from a valid canonical encoding or uses non-minimal lengths; distinct by hash of the bytes Also (rounds 6-8): well-formed nests with siblings at every depth to 70/140 (minimal and 3-byte list headers) and the same nest with one item left over; every snapshot overwrites the bytes it got and encodes again. Also (round 10): one goroutine decodes 63,000 frames that are refused inside open lists, with a well-formed nested frame after every seven, which must be accepted and re-encode to itself every time."
 	c.Assume = []string{"reference decoder internal/ref/decode.go states well-formedness as in the property; self-tested by Decode(Encode(x)) = x"}
 
 	nseed := c.pick(500, 9000)
